@@ -358,7 +358,7 @@ def check_sections(fx, rep, rule, wv, seqs):
                   expected="classes BTreeMap iterated in key order via into_values()/values(), no adaptor")
         # counts
         def strip_cast(t):
-            return t[2] if t[0] == "cast" else t
+            return t[2] if t[0] == "cast" and t[1] in ("u32", "usize", "u64") else t      # (only the format's own u32 narrowing, see strip_cast_t)
         def veclen(v):
             return ("call", "std::vec::Vec::len", (strip_deref(v),))
         ncl = strip_cast(h.get("num_classes", ("?",)))
@@ -515,7 +515,9 @@ def strip_deref(t):
 
 
 def strip_cast_t(t):
-    return t[2] if t and t[0] == "cast" else t
+    # the one narrowing the format itself makes: a length stored in a u32 field (assumption A-size). A cast to anything narrower
+    # (`as u16 as u32`) is a different value and stays in the term
+    return t[2] if t and t[0] == "cast" and t[1] in ("u32", "usize", "u64") else t
 
 
 # ---- C09.6: ordered containers, no reordering ----------------------------------------------------------------------------------------
@@ -741,7 +743,7 @@ def parse_outcome(st, out):
         if e[0] == "adt":
             if e[3]:
                 def uncast(t_):
-                    while t_[0] == "cast":
+                    while t_[0] == "cast" and t_[1] in ("u32", "usize", "u64"):
                         t_ = t_[2]
                     return t_
                 return ("Err", e[2], tuple(sorted((fn_, uncast(fv_)) for fn_, fv_ in e[3])))
